@@ -102,6 +102,86 @@ func evalVariant(base *types.Block, ps []pert, v variant, sizes []int) (res varR
 	return
 }
 
+// dumpOfVariant rebuilds the reference dump of a variant (only needed to name a collision).
+func dumpOfVariant(base *types.Block, ps []pert, v variant) string {
+	b := clone(base)
+	for _, i := range v.perts {
+		ps[i].apply(b)
+	}
+	if v.refill {
+		refill(b)
+	}
+	return dump(b)
+}
+
+// diffSignature names WHAT two block contents differ in: the sorted set of "<line kind>.<field>" of the
+// dump tokens that differ (tx[1] -> tx, pc[0] -> pc, the first line is the header). It is the root-cause part
+// of a collision key: one uncommitted field gives one key, whatever else was perturbed alongside.
+func diffSignature(a, b string) string {
+	parse := func(d string) (labels []string, lines map[string][]string) {
+		lines = map[string][]string{}
+		for i, l := range strings.Split(strings.TrimSpace(d), "\n") {
+			label, rest := "header", l
+			if i > 0 {
+				if eq := strings.Index(l, "="); eq >= 0 {
+					label, rest = l[:eq], l[eq+1:]
+				} else {
+					label, rest = l, "" // nil-data / nil-commit markers
+				}
+			}
+			labels = append(labels, label)
+			lines[label] = strings.Fields(rest)
+		}
+		return
+	}
+	kind := func(label string) string {
+		if i := strings.Index(label, "["); i >= 0 {
+			return label[:i]
+		}
+		return label
+	}
+	field := func(tok string) string {
+		if eq := strings.Index(tok, "="); eq >= 0 {
+			tok = tok[:eq]
+		}
+		if br := strings.LastIndex(tok, "{"); br >= 0 {
+			tok = tok[br+1:]
+		}
+		return indexRe.ReplaceAllString(tok, "")
+	}
+	la, ma := parse(a)
+	lb, mb := parse(b)
+	set := map[string]bool{}
+	seen := map[string]bool{}
+	for _, label := range append(la, lb...) {
+		if seen[label] {
+			continue
+		}
+		seen[label] = true
+		ta, oka := ma[label]
+		tb, okb := mb[label]
+		switch {
+		case !oka || !okb:
+			set[kind(label)+".count"] = true
+		case len(ta) != len(tb):
+			set[kind(label)+".shape"] = true
+		default:
+			// votes inside evidence repeat field names: qualify by position of the enclosing vote
+			for i := range ta {
+				if ta[i] != tb[i] {
+					set[kind(label)+"."+field(ta[i])] = true
+				}
+			}
+		}
+	}
+	var out []string
+	for k := range set {
+		out = append(out, k)
+	}
+	sort.Strings(out)
+	return strings.Join(out, ",")
+}
+
 type identStats struct {
 	variants, notApplicable, sameContent, distinctIDs int
 	// class (+mode) -> which component of the pair changed, over all variants of the class
@@ -126,7 +206,7 @@ func checkIdentity(r *vk.Run, c blockCfg, sizes []int, pairs bool, st *identStat
 	if again := baseBlock(c); dumpHash(again) != baseDump || identOf(again, sizes).hash != baseID.hash {
 		vk.Fatalf("fixture is not deterministic for %v", c)
 	}
-	if err := clone(base).ValidateBasic(); err != nil && c.H > 1 {
+	if err := clone(base).ValidateBasic(); err != nil {
 		vk.Fatalf("fixture: base block %v fails ValidateBasic: %v", c, err)
 	}
 
@@ -159,6 +239,14 @@ func checkIdentity(r *vk.Run, c blockCfg, sizes []int, pairs bool, st *identStat
 		return
 	}
 
+	if !pairs && c == (blockCfg{2, 1, 1}) {
+		r.Sample(map[string]interface{}{"phase": "identity", "block": c.String(), "variant": "(base)", "hash": baseID.hash.String(), "parts": pshKey(baseID.parts[0])})
+		for _, i := range []int{0, len(vars) / 2, len(vars) - 1} {
+			if results[i].ok {
+				r.Sample(map[string]interface{}{"phase": "identity", "block": c.String(), "variant": variantName(ps, vars[i]), "hash": results[i].ident.hash.String(), "parts": pshKey(results[i].ident.parts[0])})
+			}
+		}
+	}
 	local := identStats{partition: map[string]map[string]int{}}
 	// id -> first variant seen with it (per part size; the block hash alone is not the id)
 	type owner struct {
@@ -197,13 +285,14 @@ func checkIdentity(r *vk.Run, c blockCfg, sizes []int, pairs bool, st *identStat
 			distinct[fmt.Sprintf("%d|%s", sz, key)] = true
 			if o, ok := owners[k][key]; ok {
 				if o.dump != res.dump {
-					if o.v < 0 {
-						r.Violation("identity-unchanged:"+variantClass(ps, v),
-							fmt.Sprintf("block %v, part size %d: %s leaves both Block.Hash() and the part-set header unchanged", c, sz, vname(i)), replayIdentity(c, ps, v, sizes))
-					} else {
-						r.Violation("identity-collision:"+variantClass(ps, v)+"|"+variantClass(ps, vars[o.v]),
-							fmt.Sprintf("block %v, part size %d: two different blocks share one id: [%s] and [%s]", c, sz, vname(i), vname(o.v)), replayIdentity(c, ps, v, sizes))
+					other := dump(base)
+					if o.v >= 0 {
+						other = dumpOfVariant(base, ps, vars[o.v])
 					}
+					sig := diffSignature(dumpOfVariant(base, ps, v), other)
+					r.Violation("identity-collision:"+sig,
+						fmt.Sprintf("block %v, part size %d: two blocks that differ in {%s} have the same Block.Hash() and the same part-set header: [%s] and [%s]", c, sz, sig, vname(i), vname(o.v)),
+						replayIdentity(c, ps, v, sizes))
 				}
 			} else {
 				owners[k][key] = owner{res.dump, i}
@@ -217,7 +306,7 @@ func checkIdentity(r *vk.Run, c blockCfg, sizes []int, pairs bool, st *identStat
 				eq = eq && o.parts[k].Equals(res.ident.parts[k])
 			}
 			if !eq {
-				r.Violation("identity-differs-for-equal-content:"+variantClass(ps, v),
+				r.Violation("identity-differs-for-equal-content",
 					fmt.Sprintf("block %v: [%s] and [%s] have the same content but different ids", c, vname(i), vname(j)), replayIdentity(c, ps, v, sizes))
 			}
 		} else {
@@ -229,7 +318,7 @@ func checkIdentity(r *vk.Run, c blockCfg, sizes []int, pairs bool, st *identStat
 				eq = eq && baseID.parts[k].Equals(res.ident.parts[k])
 			}
 			if !eq {
-				r.Violation("identity-differs-for-equal-content:"+variantClass(ps, v),
+				r.Violation("identity-differs-for-equal-content",
 					fmt.Sprintf("block %v: %s does not change the content but changes the id", c, vname(i)), replayIdentity(c, ps, v, sizes))
 			}
 			continue
@@ -263,7 +352,7 @@ func checkIdentity(r *vk.Run, c blockCfg, sizes []int, pairs bool, st *identStat
 	}
 	local.distinctIDs = len(distinct)
 	if !pairs {
-		crossCheck(r, c, ps, vars, results, sizes, baseDump, baseID)
+		crossCheck(r, c, base, ps, vars, results, sizes, baseDump, baseID)
 	}
 	mu.Lock()
 	st.variants += local.variants
@@ -284,8 +373,9 @@ func checkIdentity(r *vk.Run, c blockCfg, sizes []int, pairs bool, st *identStat
 // ---- across base blocks, and the bytes validators sign ---------------------------------------------
 
 type globalOwner struct {
-	dump [32]byte
-	desc string
+	dump    [32]byte
+	desc    string
+	rebuild func() string // the full dump, recomputed only when a collision has to be named
 }
 
 var (
@@ -306,20 +396,21 @@ func signBytesFor(id types.BlockID) string {
 
 // crossCheck: (1) no two blocks with different content share an id, across base blocks as well; (2) the
 // vote sign-bytes are injective over all ids enumerated: what a validator signs pins the id, hence the content.
-func crossCheck(r *vk.Run, c blockCfg, ps []pert, vars []variant, results []varResult, sizes []int, baseDump [32]byte, baseID blockIdent) {
+func crossCheck(r *vk.Run, c blockCfg, base *types.Block, ps []pert, vars []variant, results []varResult, sizes []int, baseDump [32]byte, baseID blockIdent) {
 	globalMu.Lock()
 	defer globalMu.Unlock()
-	one := func(desc string, d [32]byte, id blockIdent, rep interface{}) {
+	one := func(desc string, d [32]byte, id blockIdent, rep interface{}, rebuild func() string) {
 		for k, sz := range sizes {
 			bid := types.BlockID{Hash: id.hash, PartsHeader: id.parts[k]}
 			key := fmt.Sprintf("%s|%s", id.hash.String(), pshKey(id.parts[k]))
 			gk := fmt.Sprintf("%d|%s", sz, key)
 			if o, ok := globalIDs[gk]; ok {
 				if o.dump != d {
-					r.Violation("identity-collision:across-base-blocks", fmt.Sprintf("part size %d: [%s] and [%s] are different blocks with one id", sz, desc, o.desc), rep)
+					sig := diffSignature(rebuild(), o.rebuild())
+					r.Violation("identity-collision:"+sig, fmt.Sprintf("part size %d: [%s] and [%s] differ in {%s} and have one id", sz, desc, o.desc, sig), rep)
 				}
 			} else {
-				globalIDs[gk] = globalOwner{d, desc}
+				globalIDs[gk] = globalOwner{d, desc, rebuild}
 			}
 			signedKeys[key] = true
 			sb := signBytesFor(bid)
@@ -334,11 +425,13 @@ func crossCheck(r *vk.Run, c blockCfg, ps []pert, vars []variant, results []varR
 			signedIDs++
 		}
 	}
-	one(fmt.Sprintf("%v unchanged", c), baseDump, baseID, map[string]interface{}{"phase": "identity", "block": c, "perturbations": []string{}, "part_sizes": sizes})
+	one(fmt.Sprintf("%v unchanged", c), baseDump, baseID, map[string]interface{}{"phase": "identity", "block": c, "perturbations": []string{}, "part_sizes": sizes},
+		func() string { return dump(base) })
 	for i, res := range results {
 		if !res.ok || res.panic != "" {
 			continue
 		}
-		one(fmt.Sprintf("%v: %s", c, variantName(ps, vars[i])), res.dump, res.ident, replayIdentity(c, ps, vars[i], sizes))
+		v := vars[i]
+		one(fmt.Sprintf("%v: %s", c, variantName(ps, v)), res.dump, res.ident, replayIdentity(c, ps, v, sizes), func() string { return dumpOfVariant(base, ps, v) })
 	}
 }
